@@ -270,6 +270,9 @@ def check(ctx, rep):
         ok = len(tc) == 1 and len(tc[0].d["args"]) == 2 and tc[0].d["args"][1] == ("param", fs.params[0])
         ident = ok and roles.is_identity(ctx, tc[0].d["args"][0])
         rep.ob("R-COMPOSE", "f_sequence is f_traverse(identity, futures)", ok and ident, "", where_of(fs), trace_of(p))
+    # cancelling the output reaches the inputs through chain_cancel (shared with C14)
+    from .c14 import _chain_cancel
+    _chain_cancel(ctx, rep, "R-FANOUT")
     # the failure rows end in copy_exception: it must store the exception on every way out (shared with C01)
     from .c01 import copy_complete_rule
     copy_complete_rule(ctx, rep, "R-TABLE")
